@@ -1081,34 +1081,54 @@ func ruleConvOrder(c *Ctx) {
 		return
 	}
 	name := fname(fn)
-	var mods, convs []ssa.CallInstruction
-	var scales []ssa.CallInstruction
-	for _, ci := range callsIn(fn) {
-		cc := ci.Common()
+	// the steps may sit in a helper shared by the chord and the rest clause: look at the whole region of Convert
+	var mods, convs, scales []rcall
+	region := c.regionCalls(fn, func(f *ssa.Function) bool { return !f.Object().Exported() && f.Name() != "changeScale" })
+	tr := &tracer{c: c, stop: func(f *ssa.Function) bool { return f.Name() == "changeScale" || (f.Object() != nil && f.Object().Exported()) }}
+	for _, rc := range region {
+		cc := rc.call.Common()
 		switch {
 		case cc.IsInvoke() && typeName(cc.Value.Type()) == "astconv.MetaInstanceModifier" && cc.Method.Name() == "Modify":
-			mods = append(mods, ci)
+			mods = append(mods, rc)
 		case cc.IsInvoke() && typeName(cc.Value.Type()) == "astconv.ChordConverter" && cc.Method.Name() == "Convert":
-			convs = append(convs, ci)
+			convs = append(convs, rc)
 		case calleeName(cc) == "astconv.ASTConverter.changeScale":
-			scales = append(scales, ci)
+			scales = append(scales, rc)
 		}
 	}
 	c.site(1)
 	problems := []string{}
-	if len(mods) != 2 || len(scales) != 2 {
-		problems = append(problems, fmt.Sprintf("%d metadata applications and %d scale changes, want 2 and 2 (chord clause and rest clause): a key change carried by a rest (or by a chord) is not applied", len(mods), len(scales)))
+	if len(convs) < 1 {
+		problems = append(problems, "no chord conversion")
 	}
-	if len(convs) != 1 {
-		problems = append(problems, fmt.Sprintf("%d chord conversions, want 1", len(convs)))
+	// every clause that hands back an instance (chord and rest alike) has switched the scale first
+	nret := 0
+	for _, r := range returnsOf(fn) {
+		if isNilConst(retVal(r, 0)) {
+			continue
+		}
+		nret++
+		covered := false
+		for _, sc := range scales {
+			if top := sc.li().at(0); top.Parent() == fn && dominatesInstr(top, r) {
+				covered = true
+			}
+		}
+		if !covered {
+			problems = append(problems, "a clause returns an instance without metadata application and scale change: a key change carried by a rest (or by a chord) is not applied")
+		}
+	}
+	if nret < 2 {
+		problems = append(problems, fmt.Sprintf("%d clauses return an instance, want the chord clause and the rest clause", nret))
 	}
 	for _, sc := range scales {
 		// preceded by a Modify on the same instance
 		okMod := false
+		inst := tr.trace(lval{sc.call.Common().Args[1], sc.fn, sc.chain})
 		for _, m := range mods {
-			if dominatesInstr(m, sc) && m.Common().Args[0] == sc.Common().Args[1] {
+			if regionDominates(m.li(), sc.li()) && tr.trace(lval{m.call.Common().Args[0], m.fn, m.chain}).same(inst) {
 				okMod = true
-				if !c.errorReturned(m.(*ssa.Call)) {
+				if !c.errorReturnedUp(m) {
 					problems = append(problems, "the error of metaModifier.Modify is not returned")
 				}
 			}
@@ -1116,21 +1136,21 @@ func ruleConvOrder(c *Ctx) {
 		if !okMod {
 			problems = append(problems, "changeScale is not preceded by metaModifier.Modify on the same instance: the key written in the metadata is not yet in the instance when the scale is switched")
 		}
-		if !c.errorReturned(sc.(*ssa.Call)) {
+		if !c.errorReturnedUp(sc) {
 			problems = append(problems, "the error of changeScale is not returned (an unknown key is silently ignored)")
 		}
 	}
 	for _, cv := range convs {
 		okSc := false
 		for _, sc := range scales {
-			if dominatesInstr(sc, cv) {
+			if regionDominates(sc.li(), cv.li()) {
 				okSc = true
 			}
 		}
 		if !okSc {
 			problems = append(problems, "the chord is converted before the scale is switched: the chord that carries `{key=...}` is still read in the old key")
 		}
-		if !c.errorReturned(cv.(*ssa.Call)) {
+		if !c.errorReturnedUp(cv) {
 			problems = append(problems, "the error of the chord conversion is not returned")
 		}
 	}
